@@ -102,6 +102,10 @@ def judge(ctx, st, s, vars_, decls, constraints, tag):
             return
     if res:
         vals = [v.sol for v in vars_]
+        for d, x in zip(decls, vals):
+            if (d[0] == "b" and type(x) is not bool) or (d[0] == "i" and (type(x) is not int or not d[1] <= x <= d[2])):
+                ctx.violation("sol-outside-declared-domain", f"sol {x!r} for a variable declared as {d}", ctx.current_case)
+                return
         try:
             ok = all(progs.ev(c, vals) for c in constraints)
         except Exception:
